@@ -22,6 +22,7 @@ def run(ctx, R):
     aes.rule_fused(ctx, R, F)
     aes.rule_asm(ctx, R, F)
     aes.rule_cover(ctx, R, F)
+    aes.rule_width(ctx, R, F)
     aeshw.rule_lanes(ctx, R)
     aeshw.rule_hw_wrap(ctx, R)
     aeshw.rule_cfg_cover(ctx, R)
